@@ -76,8 +76,8 @@ type Contract struct {
 }
 
 var reHead = regexp.MustCompile(`^(func|iface)\s+(.*)$`)
-var reTagged = regexp.MustCompile(`^(safety|requires|ensures|canary)(\[[A-Za-z0-9, ]*\])?\s*(.*)$`)
-var reLoop = regexp.MustCompile(`^loop\s+(\d+)\s+(invariant|modifies|decreases)(\[[A-Za-z0-9, ]*\])?\s+(.*)$`)
+var reTagged = regexp.MustCompile(`^(safety|requires|ensures|canary)(\[[A-Za-z0-9!, ]*\])?\s*(.*)$`)
+var reLoop = regexp.MustCompile(`^loop\s+(\d+)\s+(invariant|modifies|decreases)(\[[A-Za-z0-9!, ]*\])?\s+(.*)$`)
 
 func parseTags(s string) []string {
 	s = strings.Trim(s, "[]")
@@ -321,7 +321,28 @@ func (cs *ContractSet) finish() error {
 	return nil
 }
 
+// hasTag: positive tags select the listed properties; a list of only negative tags
+// ("!C02") selects every property except those.
 func hasTag(tags []string, p string) bool {
+	pos, neg := false, false
+	for _, t := range tags {
+		if strings.HasPrefix(t, "!") {
+			neg = true
+			if t[1:] == p {
+				return false
+			}
+		} else {
+			pos = true
+			if t == p {
+				return true
+			}
+		}
+	}
+	return neg && !pos
+}
+
+// hasPosTag: p is named explicitly (used to find the root functions of a property).
+func hasPosTag(tags []string, p string) bool {
 	for _, t := range tags {
 		if t == p {
 			return true
